@@ -196,7 +196,7 @@ class WireSpec(Spec):
     def goals(self):
         n = set(self._names)
         g = ["handshake-decoded", "data-packet-decoded", "tx-ready-forks"]
-        if n & {"s-gdd18", "s-gcfg", "s-gstr"} and "in0+" in n: g.append("control-multi-packet-data")
+        if n & {"s-gdd18", "s-gcfg"} and "in0+" in n: g.append("control-multi-packet-data")
         if "s-gcfg" in n and "in0+" in n: g.append("zlp-decoded")
         if n & {"s-vend", "s-vout"}: g.append("stall-decoded")
         if "s-sa" in n and "in0+" in n: g.append("address-changed")
